@@ -2,11 +2,14 @@ package server
 
 import (
 	"encoding/json"
+	"errors"
 	"fmt"
+	"runtime/debug"
 	"sort"
 	"strings"
 	"time"
 
+	"github.com/dgraph-io/badger/v4"
 	"github.com/mimiro-io/datahub/internal/verifhook"
 	"github.com/mimiro-io/datahub/internal/verifrt/engine"
 	"github.com/mimiro-io/datahub/internal/verifrt/model"
@@ -149,8 +152,9 @@ var nsSets = [][]string{
 }
 
 type nsObserved struct {
-	Prefix map[string]string `json:"prefix"` // expansion -> prefix
-	IDs    map[string]uint64 `json:"ids"`    // curie -> internal id
+	Faulted bool              `json:"faulted,omitempty"` // a storage write error was injected somewhere in the history
+	Prefix  map[string]string `json:"prefix"`            // expansion -> prefix
+	IDs     map[string]uint64 `json:"ids"`               // curie -> internal id
 }
 
 func newNsObserved() *nsObserved {
@@ -169,6 +173,9 @@ func (h *VHist) nsUse(op VOp, obs *nsObserved) error {
 		c, err := h.W.Store.GetNamespacedIdentifier(u, nil)
 		if err != nil {
 			return err
+		}
+		if !strings.Contains(c, ":") {
+			return fmt.Errorf("C13:compact-without-error: compacting %s returned %q and no error", strings.ReplaceAll(u, "h"+h.Tag, "H"), c)
 		}
 		curies = append(curies, c)
 		exp, _, _ := getURLParts(u)
@@ -227,6 +234,11 @@ func (c *VCheck) nsInvariants(obs *nsObserved) {
 	} else {
 		inverse("persisted", st.PrefixToExpansionMapping, st.ExpansionToPrefixMapping)
 		for p, e := range p2e {
+			if obs.Faulted {
+				// a failed call may leave behind in memory what it did not hand out; what counts then is what a
+				// later call hands out (prefix-changed / prefix-rebound after a restart)
+				break
+			}
 			if st.PrefixToExpansionMapping[p] != e {
 				c.fail("C13:persisted-differs", fmt.Sprintf("prefix %s -> %s in memory but %q persisted", p, e, st.PrefixToExpansionMapping[p]), nil)
 			}
@@ -257,12 +269,11 @@ func (c *VCheck) nsInvariants(obs *nsObserved) {
 	}
 }
 
-
 // VReplayNs replays a history of use/restart ops (C13 SEQ).
 func VReplayNs(task engine.SeqTask) (res engine.SeqResult) {
 	defer func() {
 		if r := recover(); r != nil {
-			res.Viol = append(res.Viol, engine.Violation{Key: "panic|" + fmt.Sprint(r), What: fmt.Sprintf("panic while replaying history: %v", r)})
+			res.Viol = append(res.Viol, engine.Violation{Key: "panic|" + fmt.Sprint(r), What: fmt.Sprintf("panic while replaying history: %v", r), Detail: string(debug.Stack())})
 			vWorkerWorld = nil
 		}
 	}()
@@ -283,9 +294,43 @@ func VReplayNs(task engine.SeqTask) (res engine.SeqResult) {
 		}
 		switch op.K {
 		case "use":
-			if err := h.nsUse(op, obs); err != nil {
-				chk.fail("C13:use-rejected", "a valid write with new identifiers was rejected: "+err.Error(), nil)
+			func() {
+				defer func() {
+					if r := recover(); r != nil && obs.Faulted {
+						chk.fail("C13:panic-after-write-error", fmt.Sprintf("a write after an earlier failed write panicked: %v", r), nil)
+						vWorkerWorld = nil
+					} else if r != nil {
+						panic(r)
+					}
+				}()
+				if err := h.nsUse(op, obs); err != nil {
+					chk.fail("C13:use-rejected", "a valid write with new identifiers was rejected: "+err.Error(), nil)
+				}
+			}()
+		case "usefault":
+			// the same as use, but the L-th storage commit the operation makes answers with an error; the operation
+			// may fail (then nothing it did not return counts as handed out), the hub keeps running
+			obs.Faulted = true
+			n := 0
+			badger.VerifCommitFault = func() error {
+				n++
+				if n == op.L {
+					return errors.New("injected storage write error")
+				}
+				return nil
 			}
+			func() {
+				defer func() {
+					badger.VerifCommitFault = nil
+					if r := recover(); r != nil {
+						chk.fail("C13:panic-on-write-error", fmt.Sprintf("a write whose commit number %d answered with a storage error panicked: %v", op.L, r), nil)
+						vWorkerWorld = nil
+					}
+				}()
+				if err := h.nsUse(op, obs); err != nil && strings.HasPrefix(err.Error(), "C13:compact-without-error") {
+					chk.fail("C13:compact-without-error", err.Error(), nil)
+				}
+			}()
 		case "restart":
 			w.Restart()
 		}
@@ -322,9 +367,43 @@ func VReplayNs(task engine.SeqTask) (res engine.SeqResult) {
 	sort.Strings(ps)
 	sort.Strings(is)
 	res.Key = strings.Join(ps, ",") + "|" + strings.Join(is, ",")
+	if obs.Faulted {
+		// hidden state after a failed persist: pairs that live in memory only
+		st := &NamespacesState{}
+		_ = w.Store.GetObject(NamespacesIndex, "namespacestate", st)
+		var mo []string
+		nm := w.Store.NamespaceManager
+		nm.lock.Lock()
+		for p, e := range nm.prefixToExpansionMapping {
+			if strings.Contains(e, tag) && st.PrefixToExpansionMapping[p] != e {
+				mo = append(mo, "p:"+strings.ReplaceAll(e, tag, "H"))
+			}
+		}
+		for e, p := range nm.expansionToPrefixMapping {
+			if strings.Contains(e, tag) && st.ExpansionToPrefixMapping[e] != p {
+				mo = append(mo, "e:"+strings.ReplaceAll(e, tag, "H"))
+			}
+		}
+		nm.lock.Unlock()
+		sort.Strings(mo)
+		res.Key += "|faulted|memonly=" + strings.Join(mo, ",")
+		// ... and the rolling id transaction (a failed commit leaves it discarded)
+		idt := "none"
+		w.Store.idmux.Lock()
+		if w.Store.idtxn != nil {
+			idt = "live"
+			if _, err := w.Store.idtxn.Get([]byte{0xff, 0xff, 0}); err != nil && err != badger.ErrKeyNotFound {
+				idt = "unusable"
+			}
+		}
+		w.Store.idmux.Unlock()
+		res.Key += "|idtxn=" + idt
+	}
 	// a restart is meant to change nothing: mark the state right behind it, or the search would never go on from there
 	if n := len(task.Hist); n > 0 {
-		var lo struct{ K string `json:"k"` }
+		var lo struct {
+			K string `json:"k"`
+		}
 		_ = json.Unmarshal(task.Hist[n-1], &lo)
 		if lo.K == "restart" {
 			res.Key += "|just-restarted"
@@ -334,6 +413,11 @@ func VReplayNs(task engine.SeqTask) (res engine.SeqResult) {
 	res.Outcome = res.Key
 	res.Viol = chk.Viol
 	res.Checks = chk.Checks
+	if obs.Faulted && vWorkerWorld != nil {
+		// whatever a failed write left behind in memory must not reach the next history
+		vWorkerWorld.Destroy()
+		vWorkerWorld = nil
+	}
 	return
 }
 
@@ -584,6 +668,20 @@ func init() {
 			depth, budget = 6, 1800
 		}
 		engine.RunSeq(r, engine.SeqSpec{Name: "c13-seq", WorkerArgs: []string{"worker", "ns"}, Alphabet: vOpsJSON(alpha), Depth: depth, Budget: secs(budget)})
+		// FAULT: the same with one storage write error as a deviation: the k-th commit of a use answers with an error
+		{
+			fa := []VOp{{K: "use", DS: "A", N: 0}, {K: "use", DS: "A", N: 1}, {K: "use", DS: "B", N: 2}, {K: "restart"}}
+			for _, n := range []int{0, 1, 2} {
+				for k := 1; k <= 3; k++ {
+					fa = append(fa, VOp{K: "usefault", DS: "A", N: n, L: k})
+				}
+			}
+			fd, fb := 4, 120
+			if !r.Quick() {
+				fd, fb = 5, 1800
+			}
+			engine.RunSeq(r, engine.SeqSpec{Name: "c13-seq-fault", WorkerArgs: []string{"worker", "ns"}, Alphabet: vOpsJSON(fa), Depth: fd, Budget: secs(fb)})
+		}
 		// CRASH
 		var bases []map[string]interface{}
 		cd := 2
